@@ -553,11 +553,12 @@ impl VBuf {
     pub uninterp spec fn view(&self) -> Seq<u8>;
     #[verifier::external_body]
     pub fn len(&self) -> (r: usize) ensures r == self@.len() { unimplemented!() }
-    /// `buf.iter().position(|b| *b == b'\0')`
+    /// `buf.iter().position(|&b| b == X)` (REAL contract of `Iterator::position` with that predicate): index of the
+    /// first byte equal to X in the WINDOW, `None` when the window has none -- nothing about what lies behind it
     #[verifier::external_body]
-    pub fn position_nul(&self) -> (r: Option<usize>)
-        ensures r matches Some(i) ==> i < self@.len() && self@[i as int] == 0u8 && forall|k: int| 0 <= k < i ==> self@[k] != 0u8,
-            r is None ==> forall|k: int| 0 <= k < self@.len() ==> self@[k] != 0u8,
+    pub fn position_eq(&self, x: u8) -> (r: Option<usize>)
+        ensures r matches Some(i) ==> i < self@.len() && self@[i as int] == x && forall|k: int| 0 <= k < i ==> self@[k] != x,
+            r is None ==> forall|k: int| 0 <= k < self@.len() ==> self@[k] != x,
     { unimplemented!() }
     /// `buf[..n].to_vec()`
     #[verifier::external_body]
@@ -631,8 +632,12 @@ pub fn autosql(&mut self) -> (r: Result<Option<Text>, BBIReadError>)
 
         proof {
             let c = self.read.content(); let o = self.info.header.auto_sql_offset as int;
-            lemma_nul_at(c, o);
-            if nul_at(c, o) < c.len() { assert(buffer@ =~= c.subrange(o, nul_at(c, o))); } 
+            // (a hint, guarded so that it states nothing about a `buffer` that is something else after an edit, e.g. one
+            // fill_buf window: then the postconditions decide)
+            if 0 <= o <= c.len() {
+                lemma_nul_at(c, o);
+                if nul_at(c, o) < c.len() && buffer@.len() == nul_at(c, o) - o { assert(buffer@ =~= c.subrange(o, nul_at(c, o))); } 
+            }
         }
         let autosql = (match string_from_utf8(buffer) { Ok(t__) => t__, Err(_) => return Err(BBIReadError::InvalidFile(err_text("Invalid autosql: not UTF-8"))) });
         Ok(Some(autosql))
